@@ -109,6 +109,11 @@ def _solve_z3(args):
         path = fh.name
     try:
         last = ('unknown', '', 'timeout')
+        if hint == 'cvc5':
+            # performance hint only: cvc5 decided this obligation last time (string-theory lemmas), try it first
+            r, secs = _solve_cli(text, 'cvc5', max(1, timeout_ms * 0.5 / 1000))
+            if r == 'unsat':
+                return 'unsat', time.time() - t0, '', 'cvc5'
         order = sorted(Z3_STRATEGIES, key=lambda s_: 0 if s_[0] == hint else 1)     # performance hint only (which member proved it last time)
         for name, binary, opts, share, accept_sat in order:
             tl = max(1, int(timeout_ms * share / 1000))
